@@ -35,6 +35,8 @@ def main():
         helpers(mod, sc, emit)
     elif sc["mode"] == "names":
         names(mod, sc, emit)
+    elif sc["mode"] == "seqitem":
+        seqitem(mod, sc, emit)
     emit({"done": True})
     out.close()
 
@@ -363,6 +365,32 @@ def names(mod, sc, emit):
         except BaseException as e:          # noqa
             vals[expr] = "EXC " + type(e).__name__ + " " + str(e)[:80]
     emit({"evals": vals})
+
+
+def seqitem(mod, sc, emit):
+    """histories of o[i] / o[i] = v (spec PySeqItem) on a fresh IVec(n) per history; after every step the
+    cells are read back through a plain C++ accessor (raw(k), k = -3 .. n+2: items and guard cells)."""
+    for hi, h in enumerate(sc["hists"]):
+        emit({"at": hi})
+        o = mod.IVec(h["n"])
+        tgt = {"opidx": o, "seqprop": o.cells, "roidx": mod.RVec(h["n"]) if h["kind"] == "roidx" else None}[h["kind"]]
+        steps = []
+        try:
+            ln = len(tgt)
+        except BaseException as e:      # noqa
+            ln = "EXC " + type(e).__name__
+        for op in h["ops"]:
+            try:
+                if op["op"] == "get":
+                    r = tgt[op["i"]]
+                else:
+                    tgt[op["i"]] = op["v"]
+                    r = 0
+            except BaseException as e:      # noqa
+                r = "EXC " + type(e).__name__
+            src = tgt if h["kind"] == "roidx" else o
+            steps.append([r, [src.raw(k) for k in range(-3, h["n"] + 3)]])
+        emit({"h": hi, "len": ln, "steps": steps})
 
 
 if __name__ == "__main__":
